@@ -310,6 +310,36 @@ def _chk_sorted_return(site, pm, px):
     return ok, "directory enumeration order is erased by returning sorted(...)"
 
 
+def _chk_unordered_then_sorted(site, pm, px):
+    """a directory enumeration inside a private helper that hands back an unordered collection (set / set comprehension), every call
+    of which sits inside sorted(...): the enumeration order cannot reach anything"""
+    if site.category != "fs-order" or site.func is None or site.func.cls is None or not site.func.name.startswith("_"):
+        return False, ""
+    f = site.func
+    rets = [n for n in ast.walk(f.node) if isinstance(n, ast.Return) and n.value is not None]
+
+    def unordered(e):
+        return isinstance(e, (ast.Set, ast.SetComp)) or (isinstance(e, ast.Call) and effects.dotted(e.func) in ("set", "frozenset"))
+    if not rets or not all(unordered(r.value) for r in rets):
+        return False, ""
+    uses = []
+    for g in [x for x in px.all_funcs if x.module is f.module]:
+        gpm = pyfront.parent_map(g.node)
+        for c in ast.walk(g.node):
+            if isinstance(c, ast.Call) and isinstance(c.func, ast.Attribute) and c.func.attr == f.name:
+                cur, ok = c, False
+                while id(cur) in gpm:
+                    cur = gpm[id(cur)]
+                    if isinstance(cur, ast.Call) and effects.dotted(cur.func) == "sorted":
+                        ok = True
+                        break
+                    if isinstance(cur, ast.stmt):
+                        break
+                uses.append(ok)
+    ok = bool(uses) and all(uses)
+    return ok, f"{f.short} returns an unordered set and each of its {len(uses)} call(s) is an argument of sorted(...)"
+
+
 def _chk_support_files_order(site, pm, px):
     # iter_package_resources: order reaches (a) include lists -> sorted (R-C07-ORDER includes obligation),
     # (b) generation order -> output-irrelevant.  Structural condition: the function only yields paths.
@@ -401,7 +431,7 @@ def rule_ambient_py(ctx, px):
             if chk is None:
                 # generic structural justifications that hold for any site: the value can only reach a log record, or only selects
                 # code by interpreter version
-                for g_chk in (_chk_logging_arg, _chk_version_gate, _chk_lister_callback, _chk_gzip_mtime_any):
+                for g_chk in (_chk_logging_arg, _chk_version_gate, _chk_lister_callback, _chk_gzip_mtime_any, _chk_unordered_then_sorted):
                     try:
                         okg, whyg = g_chk(s, pm, px)
                     except Exception:
